@@ -187,3 +187,13 @@ PROPS["C05"] = dict(
     modelled="pkg/merge/merger.go (mergeTables), row_resolver.go (Resolve, tryResolve), row_collector.go (SaveResolvedRow, collectRowsThatStayedTheSame) for tables with equal column lists",
     assumptions=["row hashes identify row content (meow collision-freedom on a run)", "column-changing branches (CompareColumns) are run for crash-freedom only"],
 )
+
+PROPS["C08"] = dict(
+    lean_modules=["WrglModel.Props.C08"],
+    quick_n=600, thorough_n=10000,
+    rule="random DAGs (1..10 commits quick, ..14 thorough; merges, several roots, 5 timestamp modes, shared tables, shallow commits) and diamond chains of 10..12 diamonds; "
+         "1..3 refs; 1..3 negotiation rounds with 1..2 wants (incl. wants unreachable from the refs), 0..3 haves per round (incl. unknown hashes), done flag, depth 0..3; "
+         "ClosedSetsFinder.Process / CommitsToSend / TablesToSend on a mock object store and the SQLite ref store; non-trivial = DAG with a merge, several roots or non-monotone times; distinct = distinct (op, input)",
+    modelled="pkg/api/utils/closed_sets_finder.go (Process, ensureWantsAreReachable, findCommons, enqueueWants, findClosedSetOfObjects, CommitsToSend, TablesToSend), CommitsQueue.PopUntil",
+    assumptions=["Go's random map iteration order over pending wants and unstable sort of the initial queue: model and implementation are compared as sets, the property clauses are evaluated on the implementation's actual list"],
+)
